@@ -170,7 +170,7 @@ func c16Unregistrations(e *c16Env, covered map[string]bool) {
 				"a registration is deleted from Broker.clients without the entry having been looked up in the same critical section: "+why+". If a new connection takes the client id over between the lookup and the delete, the delete removes the NEW connection's registration - it stays open but is unreachable for delivery ('an admin delete disconnects that client only')", witness(bad)...)
 		}
 	}
-	c.RequireCount("R-C16-3", "deletes from Broker.clients in the package", n, 2)
+	c.RequireCount("R-C16-3", "deletes from Broker.clients in the package", n, 1)
 }
 
 func sortDecls(ds []*ast.FuncDecl) {
